@@ -90,9 +90,15 @@ func (s *store) Create(key string, sizeBytes uint64) (*File, error) {
 	return newFile(b.data, &b.sliceMu), nil
 }
 
+// fits reports whether `space` more bytes can be reserved without exceeding the capacity.
+// It must not compute s.size+space: the sum of two uint64 may wrap around.
+func (s *store) fits(space uint64) bool {
+	return space <= s.capacity && s.size <= s.capacity-space
+}
+
 func (s *store) reserveSpace(space uint64) bool {
 	// TODO - consider whether it's a worth optimization to check if we can evict enough data BEFORE we start evicting, as to prevent evicting needlessly.
-	for s.size+space > s.capacity {
+	for !s.fits(space) {
 		if s.evictQueue.Len() == 0 {
 			return false
 		}
